@@ -1,5 +1,6 @@
 import RepeVerif.Lemmas.OffReader
 import RepeVerif.Gen.Offreader
+import RepeVerif.Props.C03
 /-!
 # C16 — Off-reader handlers are capped, never block the reader or kill the connection
 
@@ -258,5 +259,136 @@ theorem wrapped_route_is_off_reader (hi : Inv s) (a : Arrival) (hr : a.route = .
   refine ⟨by simp [effectiveOff, hr, specOffFacts], ?_⟩
   rw [step_spec s hi.1, step_spec s hi.1]
   simp [stepSpec, hr]
+
+/-! ### composition with C03 (dispatch): the off-reader path of both models is the same path -/
+
+/-- **C03 ∘ C16.** An admitted, non-notify request whose handler *returns* (a message of its own, or an
+error): the response C03's `respond … .wsOff` computes — request id, query stamp, error mapping through
+`errorLike` — is, in its id and error code, exactly the entry this model's `exit` step appends to the
+outbound FIFO; and it is C03's single response for that request. (`hok`: a handler's own message
+carries the request id and no error code — the built-in handlers' contract, cf. `C03.query_echo`.) -/
+theorem admitted_exit_is_c03_response (hi : Inv s) (req : Req) (utf8 found : Bool) (hview howned : HOut)
+    (r : Run) (rest : List Run)
+    (hroute : route Gen.codes req utf8 found = .dispatch) (hn : req.isNotify = false)
+    (ht : takeRun req.header.id s.running = some (r, rest)) (hrn : r.notify = false)
+    (hok : ∀ m, howned = .ok m → m.header.id = req.header.id ∧ m.header.ec = 0) :
+    ∃ m, (respond Gen.codes .wsOff req utf8 found hview howned).1 = some m ∧
+      (respond Gen.codes .wsOff req utf8 found hview howned).2 = 1 ∧
+      m.header.id = req.header.id ∧
+      (step Gen.offFacts s (.exit req.header.id (exitOf howned))).outbound = s.outbound ++ [respOf m] := by
+  have hstep := (exit_answers_once s hi req.header.id (exitOf howned) r rest ht).1
+  rw [hrn] at hstep
+  have hcnt : (respond Gen.codes .wsOff req utf8 found hview howned).2 = 1 := by
+    rw [C03.handler_once, hroute]; rfl
+  cases howned with
+  | ok mo =>
+    obtain ⟨h1, h2⟩ := hok mo rfl
+    refine ⟨stampResponseQuery mo req.query, ?_, hcnt, ?_, ?_⟩
+    · unfold respond; rw [hroute]; simp [hn, finalMessage]
+    · rw [stamp_id, h1]
+    · rw [hstep]; simp [respOf, exitOf, stamp_id, stamp_ec, h1, h2]
+  | err c msg =>
+    refine ⟨stampResponseQuery (errorLike req c msg) req.query, ?_, hcnt, ?_, ?_⟩
+    · unfold respond; rw [hroute]; simp [hn, finalMessage]
+    · rw [stamp_id]; rfl
+    · rw [hstep]; simp [respOf, exitOf, stamp_id, stamp_ec]
+
+/-- The two replies `spawn_off_reader` builds itself are C03's `errorLike` (request id and query, the
+given code): the saturation reply and the panic reply of this model are `respOf` of those messages. -/
+theorem own_replies_are_errorLike (hi : Inv s) (req : Req) (msg : Bytes) :
+    (∀ c a, s.cap = some c → s.running.length = c → a.route = .blocking → a.notify = false →
+      a.id = req.header.id →
+      (step Gen.offFacts s (.arrive a)).outbound =
+        s.outbound ++ [respOf (errorLike req Gen.codes.resourceExhausted msg)]) ∧
+    (∀ r rest, takeRun req.header.id s.running = some (r, rest) → r.notify = false →
+      (step Gen.offFacts s (.exit req.header.id .panic)).outbound =
+        s.outbound ++ [respOf (stampResponseQuery (errorLike req Gen.codes.internalError msg) req.query)]) := by
+  constructor
+  · intro c a hc hfull hr hnn hid
+    rw [(saturation_immediate_and_inert s hi c a hc hfull hr).1]
+    simp [hnn, respOf, hid]
+  · intro r rest ht hrn
+    rw [(exit_answers_once s hi req.header.id .panic r rest ht).1, hrn]
+    simp [respOf, stamp_id, stamp_ec]
+
+/-- A notify request: C03 gives no response, and this model's exit of a notify handler queues none. -/
+theorem notify_exit_is_c03_none (hi : Inv s) (req : Req) (utf8 found : Bool) (hview howned : HOut)
+    (k : ExitKind) (r : Run) (rest : List Run) (hn : req.isNotify = true)
+    (ht : takeRun req.header.id s.running = some (r, rest)) (hrn : r.notify = true) :
+    (respond Gen.codes .wsOff req utf8 found hview howned).1 = none ∧
+    (step Gen.offFacts s (.exit req.header.id k)).outbound = s.outbound := by
+  refine ⟨C03.no_response_for_notify .wsOff req utf8 found hview howned [] hn, ?_⟩
+  rw [(exit_answers_once s hi req.header.id k r rest ht).1, hrn]; simp
+
+example : route Gen.codes ⟨⟨48+2, 0x1507, 1, 0, 0, 7, 2, 0, 1, 2, 0⟩, [47, 97], []⟩ true true = .dispatch ∧
+    (⟨⟨48+2, 0x1507, 1, 0, 0, 7, 2, 0, 1, 2, 0⟩, [47, 97], []⟩ : Req).isNotify = false := by decide
+
+/-! ### configuration, and several connections of one server -/
+
+/-- `WebSocketServer::new` caps every connection at `DEFAULT_OFFREADER_LIMIT` (whatever value the source
+gives it; 16 today); `with_offreader_limit(0)` removes the cap; `with_offreader_limit(n)`, `n > 0`, caps
+at `n` — and the cap is the number of permits of a semaphore each connection gets for itself. -/
+theorem configured_cap :
+    connectionCap Gen.capFacts .default = some Gen.capFacts.defaultLimit ∧
+    connectionCap Gen.capFacts (.set 0) = none ∧
+    ∀ n, 0 < n → connectionCap Gen.capFacts (.set n) = some n := by
+  have hf : Gen.capFacts.newUsesDefault = true ∧ Gen.capFacts.zeroMeansUnlimited = true ∧
+      Gen.capFacts.semaphoreIsLimitPerConnection = true := by decide
+  obtain ⟨h1, h2, h3⟩ := hf
+  refine ⟨by simp [connectionCap, configuredLimit, h1, h3], by simp [connectionCap, configuredLimit, h2, h3], ?_⟩
+  intro n hn
+  simp [connectionCap, configuredLimit, h3, hn]
+
+/-- **Per connection, for every interleaving.** Whatever happens on a server — connections accepted,
+events on any of them in any order, connections going away while handlers are still running — every
+connection, open or closed, keeps the permit invariant against the configured cap: at most `cap` of
+*its* handlers run, and its permits taken equal its handlers running. -/
+theorem server_every_connection_capped (setting : CapSetting) (evs : List SEv) :
+    ∀ c ∈ srun Gen.offFacts Gen.capFacts setting evs,
+      Inv c.st ∧ c.st.cap = connectionCap Gen.capFacts setting ∧
+      ∀ k, connectionCap Gen.capFacts setting = some k → c.st.running.length ≤ k := by
+  intro c hc
+  rw [source_facts] at hc
+  obtain ⟨h1, h2⟩ := srun_inv Gen.capFacts setting evs [] (by simp) c hc
+  refine ⟨h1, h2, ?_⟩
+  intro k hk
+  obtain ⟨_, h3⟩ := h1
+  rw [h2, hk] at h3
+  exact h3.2.1
+
+/-- Connections do not share slots: an event on connection `i` (or its disconnect) leaves every other
+connection exactly as it was, and a new connection starts with nothing running however many handlers
+of older connections still hold permits. -/
+theorem connections_independent (setting : CapSetting) (conns : List Conn) (i j : Nat) (e : Ev) (h : j ≠ i) :
+    (sstep Gen.offFacts Gen.capFacts setting conns (.ev i e))[j]? = conns[j]? ∧
+    (sstep Gen.offFacts Gen.capFacts setting conns (.disconnect i))[j]? = conns[j]? ∧
+    (sstep Gen.offFacts Gen.capFacts setting conns .connect)[conns.length]? =
+      some ⟨St.init (connectionCap Gen.capFacts setting), false⟩ :=
+  ⟨modifyNth_getElem?_ne _ _ _ _ h, modifyNth_getElem?_ne _ _ _ _ h, by simp [sstep]⟩
+
+/-- A handler that outlives its connection still frees its slot when it ends (return, error or panic);
+its answer is discarded and nothing else about the closed connection changes. -/
+theorem closed_connection_exit_frees_slot (c : Conn) (hi : Inv c.st) (hc : c.closed = true)
+    (id : Nat) (k : ExitKind) (r : Run) (rest : List Run) (ht : takeRun id c.st.running = some (r, rest)) :
+    let c' := connStep Gen.offFacts c (.exit id k)
+    c'.st.running = rest ∧ c'.st.outbound = c.st.outbound ∧ Inv c'.st ∧ c'.closed = true ∧
+    (∀ n, c.st.cap = some n → c'.st.permits + 1 = c.st.permits) := by
+  have h2 := (exit_answers_once c.st hi id k r rest ht).2
+  have hinv := connStep_inv c hi (.exit id k)
+  rw [← source_facts] at hinv
+  have hrun : (connStep Gen.offFacts c (.exit id k)).st.running = rest := by
+    simp only [connStep, hc, if_true]; exact h2
+  refine ⟨hrun, by simp [connStep, hc], hinv.1, by rw [hinv.2.2, hc], ?_⟩
+  intro n hn
+  obtain ⟨_, h3⟩ := hinv.1
+  rw [hinv.2.1, hn] at h3
+  obtain ⟨_, h4⟩ := hi
+  rw [hn] at h4
+  have := (takeRun_some ht).2.2.1
+  rw [h3.1, hrun, h4.1]; omega
+
+example : ∃ c : Conn, Inv c.st ∧ c.closed = true ∧ c.st.cap = some 2 ∧
+    takeRun 1 c.st.running = some (⟨1, false, true⟩, [⟨2, true, true⟩]) :=
+  ⟨⟨exampleSt, true⟩, reachable_inv _ _, rfl, by decide, by decide⟩
 
 end Repe.C16
